@@ -4,4 +4,4 @@ Require Extraction.
 Require Import ExtrOcamlBasic.
 From Atlas Require Import Plan.SortModel.
 Extraction Language OCaml.
-Extraction "model.ml" plan replay mysql_sources pg_sources DetachCycles SortChanges sortMap dependencies.
+Extraction "model.ml" plan replay mysql_sources pg_sources DetachCycles SortChanges sortMap dependencies qn qcode topLevel plan_all.
